@@ -58,7 +58,7 @@ class ProgGen:
 
     def str_lit(self):
         return repr(self.r.choice(['a', 'hello', 'Hello World', '', ' pad ', 'x y', 'line1\nline2', 'tab\there',
-                                   'trail  ', 'UP', '42', "it's", 'end.']))
+                                   'trail  ', 'UP', '42', "it's", 'end.', 'cr\rlf', 'crlf\r\n']))
 
     def int_expr(self, depth=0, local=None):
         r = self.r
@@ -143,7 +143,7 @@ class ProgGen:
         if c < 0.15:
             kw.append('sep=%s' % repr(r.choice(['', ', ', '-', '\n', ' | '])))
         if 0.1 < c < 0.3:
-            kw.append('end=%s' % repr(r.choice(['', ' ', '!\n', '\n\n', '  \n', ';'])))
+            kw.append('end=%s' % repr(r.choice(['', ' ', '!\n', '\n\n', '  \n', ';', '\r', '\r\n'])))
         if c > 0.9 and self.allow_sys:
             self.need('sys')
             kw.append('file=sys.stdout')
@@ -513,8 +513,15 @@ class ProgGen:
         if c < 0.9 and self.vars['dict']:
             d = r.choice(self.vars['dict'])
             return ['for key in sorted(%s):' % d, '    print(key, %s[key])' % d]
-        if c < 0.95:
+        if c < 0.93:
             return ["if __name__ == '__main__':", "    print('main', __name__)"]
+        if c < 0.97:
+            # annotated definitions: annotations are evaluated when the def runs, and are observable afterwards
+            name = self.fresh('func')
+            self.funcs.append((name, 1, 'int'))
+            ann = r.choice(['int', 'int', 'str', 'list', 'undefined_annotation_type'])
+            return ['def %s(q: %s, w: str = "x") -> int:' % (name, ann), '    return q',
+                    'print(sorted(%s.__annotations__.items(), key=str))' % name]
         v = self.fresh('int')
         self.vars['int'].append(v)
         return ['%s = %s' % (v, r.choice(['True', 'False', 'len("abc")', 'round(2.5)', 'ord("a")']))]
